@@ -91,13 +91,14 @@ PROPS = {
     "C10": {
         "level": "exploration", "floor": 0.6,
         "fuzz": [{"pkg": "validation", "target": "FuzzC10CrossValidation", "time": 90}],
-        "technique": "property-based testing: split/merge/permute and near-miss generators vs an independent multiset oracle (both directions); metamorphic hash relations (key-shuffled JSON round trip, every single-field edit by reflection); version gate through the real manifest manager (C20 harness); native fuzzing of the JSON manifest decoder in thorough",
-        "level_text": "On-chain groups are generated from a small palette so that equal units recur; manifests are derived by splitting, merging and permuting services (must be accepted by both cross-validation entry points) and by one small alteration (count, cpu/memory/storage by one unit, one attribute, global<->local, port 80<->81, group renamed/added/dropped: must be rejected); an independent multiset oracle decides both directions. ManifestVersion must be invariant under key-shuffled JSON round trips and change under every single-field edit enumerated by reflection. The hash-vs-chain-version gate is exercised against the real manager in the C20 harness.",
+        "technique": "property-based testing: split/merge/permute and near-miss generators vs an independent multiset oracle (both directions); metamorphic hash relations (key-shuffled JSON round trip, every single-field edit by reflection); version gate through the real manifest manager on generated gated schedules (update events before/during/after the chain fetch); native fuzzing of the JSON manifest decoder in thorough",
+        "level_text": "On-chain groups are generated from a small palette so that equal units recur; manifests are derived by splitting, merging and permuting services (must be accepted by both cross-validation entry points) and by one small alteration (count, cpu/memory/storage by one unit, one attribute, global<->local, port 80<->81, group renamed/added/dropped: must be rejected); an independent multiset oracle decides both directions. ManifestVersion must be invariant under key-shuffled JSON round trips and change under every single-field edit enumerated by reflection. The hash-vs-chain-version gate is decided on the real manager with the chain query gated by the harness: generated schedules of lease/submit/fetch/version-update steps, acceptance iff the hash equals the latest update event's version, else the fetched Deployment.Version.",
         "level_note": "Trusted: the oracle's definition of endpoint kinds (TCP, global, external port 80 = shared HTTP); counts >= 1 (count-0 units are unreachable for real callers).",
         "assumptions": ["manifests and groups stay inside what ValidateManifest / on-chain validation admit"],
         "units": [
             {"pkg": "validation", "run": "^TestVerif_C10_CrossValidation$", "checks": {Q: 4000, T: 100000}, "shards": {Q: 2, T: 16}, "timeout": {Q: 600, T: 3000}},
             {"pkg": "validation", "run": "^TestVerif_C10_Hash$", "checks": {Q: 300, T: 5000}, "shards": {Q: 2, T: 16}, "timeout": {Q: 600, T: 3000}},
+            {"pkg": "provider/manifest", "run": "^TestVerif_C10_VersionGate$", "checks": {Q: 500, T: 6000}, "shards": {Q: 4, T: 16}, "timeout": {Q: 900, T: 3000}, "shrinktime": "40s"},
         ],
     },
     "C18": {
